@@ -1,6 +1,7 @@
 (* C04 -- recorded files are well-formed GUPPI RAW and all readers agree on framing. *)
 From Coq Require Import List Arith ZArith Bool String Ascii.
 From SV Require Import Model.Header Proofs.Header Model.Backend Proofs.Backend.
+From SV Require Import Kernels.Gen04 Proofs.K04.
 Import ListNotations.
 Local Open Scope string_scope.
 
@@ -58,6 +59,11 @@ Theorem c04_files : forall c n, (1 <= blocks_per_file c)%Z -> (1 <= n)%Z ->
   zsuml (map (fun i => Backend.blocks_in_file c n (Z.of_nat i)) (seq 0 (Z.to_nat (Backend.num_files c n)))) = n.
 Proof. exact files_sum. Qed.
 Print Assumptions c04_files.
+
+(* the padding expression of the CURRENT source (Kernels/Gen04.v, regenerated on every run) is the model's *)
+Theorem c04_source_padding : forall n, Z.of_nat (pad_len n true) = src_header_padding (Z.of_nat n).
+Proof. exact k_header_padding. Qed.
+Print Assumptions c04_source_padding.
 
 Example c04_example :
   format_line "NBITS" (Num "8") = "NBITS   =                    8                                                  " /\
